@@ -39,7 +39,7 @@ Clauses(r) ==
     loads         |-> P.ok => r.load = "ok",                             \* C04: any file in the layout is loaded
     loaded_same   |-> (P.ok /\ r.load = "ok") => AbsOf(r.prog2) = Abs(P), \* C03/C04: ... as the program it denotes
     loaded_layout |-> r.load = "ok" => RangesPartition(r.prog2),         \* loader re-appends method code in pool order
-    loaded_labels |-> (P.ok /\ r.load = "ok" /\ "labels" \in DOMAIN r.prog2) =>   \* C03: the label table the loader derives (it is not in the file): every string constant
+    loaded_labels |-> (P.ok /\ r.load = "ok" /\ "labels" \in DOMAIN r.prog2 /\ NC(P) <= 4000) =>   \* (Load is quadratic in the pool size: the 65 535-constant pool is judged by the other clauses)   \* C03: the label table the loader derives (it is not in the file): every string constant
                         LET I == Load(P) IN                                \* names the address of the last label instruction carrying it, or nothing
                         I.loadable /\ \A k \in 1..Len(r.prog2.labels) :
                            LET e == r.prog2.labels[k]  nm == StrOf(P, e[1]) IN e[2] = (IF nm \in DOMAIN I.labels THEN I.labels[nm] ELSE -1),
